@@ -17,7 +17,7 @@ type vLog struct{}
 func (l vLog) WithComponent(string) logutil.Log                      { return l }
 func (l vLog) Trace(string, ...interface{}) string                   { return "" }
 func (l vLog) Un(string)                                             {}
-func (l vLog) Debugf(string, ...interface{})                         {}
+func (l vLog) Debugf(string, ...interface{})                         { zzverif.Perturb() }
 func (l vLog) Infof(string, ...interface{})                          {}
 func (l vLog) Warnf(string, ...interface{})                          {}
 func (l vLog) Errorf(string, ...interface{})                         {}
